@@ -193,10 +193,14 @@ for idx, prog, meta, berr, out in results[len(PROBE_JOBS):]:
         continue
     for u, s in meta["sigs"].items():
         chk.sig(s[:200])
-    if idx < 2 and not probs:
-        u = meta["batches"][1][2][0]
-        chk.sample({"program": idx, "unit": u, "shape": meta["sigs"][u], "printed_by_go": run.undump(dict(run.parse_R(res.err)).get(u, "")),
-                    "modules": meta["mods"], "bound_by": meta["bound"], "import_log_head": [l for l in plog.split("\n") if l[:2] in ("I ", "X ")][:6]})
+    if len(chk.cov["samples"]) < 2:
+        # one executed unit of this program, written out (whatever the verdict on the program)
+        recs = dict(run.parse_R(res.err))
+        units = [x for bt in meta["batches"] for x in bt[2] if x in meta["sigs"]] or sorted(meta["sigs"])
+        u = next((x for x in units if x in recs), units[0] if units else None)
+        if u is not None:
+            chk.sample({"program": idx, "unit": u, "shape": meta["sigs"][u], "printed_by_go": run.undump(recs.get(u, "")),
+                        "modules": meta["mods"], "bound_by": meta["bound"], "import_log_head": [l for l in plog.split("\n") if l[:2] in ("I ", "X ")][:6]})
     if not probs:
         continue
     # one violation per program: the first problem, with the program reduced to the offending unit when that still shows it
